@@ -277,18 +277,45 @@ def mpi_pi(prec):
     b = mpf_pi(prec, round_ceiling)
     return a, b
 
+def mpf_outward(f, args, prec, rounding, exact_at_integers=False):
+    """
+    The value f(*args) rounded outward in the given direction (round_floor
+    or round_ceiling). The transcendental kernels round an approximation
+    that was computed with some guard bits; their directed result is a
+    bound only after allowing for the error of that approximation, so the
+    value is computed with 20 extra bits and moved outward by 2^10 units
+    of that precision before the final rounding (as in mpi_cos_sin).
+    Zero, infinities and nan are returned as they are, and so is the value
+    of the gamma function at a small integer (exact_at_integers).
+    """
+    wp = prec + 20
+    v = f(*(args + (wp,)))
+    sign, man, exp, bc = v
+    if not man:
+        return v
+    if exact_at_integers and args[0][2] >= 0 and bc <= prec:
+        # gamma, 1/gamma at a small integer: the kernel's value is exact
+        return v
+    if bool(sign) == (rounding == round_floor):
+        p = from_man_exp((MPZ_ONE<<wp) + (MPZ_ONE<<10), -wp)
+    else:
+        p = from_man_exp((MPZ_ONE<<wp) - (MPZ_ONE<<10), -wp)
+    return mpf_mul(v, p, prec, rounding)
+
 def mpi_exp(s, prec):
     sa, sb = s
     # exp is monotonic
-    a = mpf_exp(sa, prec, round_floor)
-    b = mpf_exp(sb, prec, round_ceiling)
+    if sa == fzero: a = fone
+    else: a = mpf_outward(mpf_exp, (sa,), prec, round_floor)
+    if sb == fzero: b = fone
+    else: b = mpf_outward(mpf_exp, (sb,), prec, round_ceiling)
     return a, b
 
 def mpi_log(s, prec):
     sa, sb = s
     # log is monotonic
-    a = mpf_log(sa, prec, round_floor)
-    b = mpf_log(sb, prec, round_ceiling)
+    a = mpf_outward(mpf_log, (sa,), prec, round_floor)
+    b = mpf_outward(mpf_log, (sb,), prec, round_ceiling)
     return a, b
 
 def mpi_sqrt(s, prec):
@@ -300,8 +327,8 @@ def mpi_sqrt(s, prec):
 
 def mpi_atan(s, prec):
     sa, sb = s
-    a = mpf_atan(sa, prec, round_floor)
-    b = mpf_atan(sb, prec, round_ceiling)
+    a = mpf_outward(mpf_atan, (sa,), prec, round_floor)
+    b = mpf_outward(mpf_atan, (sb,), prec, round_ceiling)
     return a, b
 
 def mpi_pow_int(s, n, prec):
@@ -734,28 +761,28 @@ def mpi_atan2(y, x, prec):
     # Right half-plane
     if mpf_ge(xa, fzero):
         if mpf_ge(ya, fzero):
-            a = mpf_atan2(ya, xb, prec, round_floor)
+            a = mpf_outward(mpf_atan2, (ya, xb), prec, round_floor)
         else:
-            a = mpf_atan2(ya, xa, prec, round_floor)
+            a = mpf_outward(mpf_atan2, (ya, xa), prec, round_floor)
         if mpf_ge(yb, fzero):
-            b = mpf_atan2(yb, xa, prec, round_ceiling)
+            b = mpf_outward(mpf_atan2, (yb, xa), prec, round_ceiling)
         else:
-            b = mpf_atan2(yb, xb, prec, round_ceiling)
+            b = mpf_outward(mpf_atan2, (yb, xb), prec, round_ceiling)
     # Upper half-plane
     elif mpf_ge(ya, fzero):
-        b = mpf_atan2(ya, xa, prec, round_ceiling)
+        b = mpf_outward(mpf_atan2, (ya, xa), prec, round_ceiling)
         if mpf_le(xb, fzero):
-            a = mpf_atan2(yb, xb, prec, round_floor)
+            a = mpf_outward(mpf_atan2, (yb, xb), prec, round_floor)
         else:
-            a = mpf_atan2(ya, xb, prec, round_floor)
+            a = mpf_outward(mpf_atan2, (ya, xb), prec, round_floor)
     # Lower half-plane, not touching the negative real axis (on which
     # atan2 jumps from -pi to pi; that case is covered below)
     elif mpf_lt(yb, fzero):
-        a = mpf_atan2(yb, xa, prec, round_floor)
+        a = mpf_outward(mpf_atan2, (yb, xa), prec, round_floor)
         if mpf_le(xb, fzero):
-            b = mpf_atan2(ya, xb, prec, round_ceiling)
+            b = mpf_outward(mpf_atan2, (ya, xb), prec, round_ceiling)
         else:
-            b = mpf_atan2(yb, xb, prec, round_ceiling)
+            b = mpf_outward(mpf_atan2, (yb, xb), prec, round_ceiling)
     # Covering the origin or part of the negative real axis
     else:
         b = mpf_pi(prec, round_ceiling)
@@ -842,25 +869,25 @@ def mpi_gamma(z, prec, type=0):
     # increasing
     if mpf_gt(a, gamma_min_b):
         if type == 0:
-            c = mpf_gamma(a, prec, round_floor)
-            d = mpf_gamma(b, prec, round_ceiling)
+            c = mpf_outward(mpf_gamma, (a,), prec, round_floor, True)
+            d = mpf_outward(mpf_gamma, (b,), prec, round_ceiling, True)
         elif type == 2:
-            c = mpf_rgamma(b, prec, round_floor)
-            d = mpf_rgamma(a, prec, round_ceiling)
+            c = mpf_outward(mpf_rgamma, (b,), prec, round_floor, True)
+            d = mpf_outward(mpf_rgamma, (a,), prec, round_ceiling, True)
         elif type == 3:
-            c = mpf_loggamma(a, prec, round_floor)
-            d = mpf_loggamma(b, prec, round_ceiling)
+            c = mpf_outward(mpf_loggamma, (a,), prec, round_floor)
+            d = mpf_outward(mpf_loggamma, (b,), prec, round_ceiling)
     # decreasing
     elif mpf_gt(a, fzero) and mpf_lt(b, gamma_min_a):
         if type == 0:
-            c = mpf_gamma(b, prec, round_floor)
-            d = mpf_gamma(a, prec, round_ceiling)
+            c = mpf_outward(mpf_gamma, (b,), prec, round_floor, True)
+            d = mpf_outward(mpf_gamma, (a,), prec, round_ceiling, True)
         elif type == 2:
-            c = mpf_rgamma(a, prec, round_floor)
-            d = mpf_rgamma(b, prec, round_ceiling)
+            c = mpf_outward(mpf_rgamma, (a,), prec, round_floor, True)
+            d = mpf_outward(mpf_rgamma, (b,), prec, round_ceiling, True)
         elif type == 3:
-            c = mpf_loggamma(b, prec, round_floor)
-            d = mpf_loggamma(a, prec, round_ceiling)
+            c = mpf_outward(mpf_loggamma, (b,), prec, round_floor)
+            d = mpf_outward(mpf_loggamma, (a,), prec, round_ceiling)
     else:
         # TODO: reflection formula
         znew = mpi_add(z, mpi_one, wp)
